@@ -51,9 +51,14 @@ def _(ctx):
     ctx.merge_rules(it)
     if len(paths) != 1:
         ctx.record('paths', ERROR, 'B', 0, 'expected a single path, got %d' % len(paths))
+    S, C = (lambda t: it.uf('sin', t)), (lambda t: it.uf('cos', t))
+    rels = [S(t) * S(t) + C(t) * C(t) - 1 for t in (t12, t13, t23, dl)]
     for sym, V, exc in paths:
         for name, goal in unitarity_goals(V):
-            ctx.prove(name, sym.pc + sym.axioms, goal)
+            # goal = And(re == delta_ij, im == 0): polynomial identities modulo sin^2+cos^2=1 -> ring normalisation; SMT (nlsat) as fallback
+            pairs = [(c.arg(0), c.arg(1)) for c in goal.children()]
+            ctx.prove_ring(name, pairs, relations=rels,
+                           fallback=lambda name=name, goal=goal, sym=sym: ctx.prove(name, sym.pc + sym.axioms, goal, tactics=('nlsat', 'default'), timeout_ms=60000))
         ctx.sides('ckm', sym, [])
 
 def ckm_angles_stub(ctx_store):
